@@ -240,7 +240,8 @@ Proof.
   - (* PWUndo *)
     destruct Ht as (U & C & T).
     destruct (Z.ltb_spec orig 0) as [Ho|Ho].
-    + destruct (ev_is e DV_CASW MO_RELAXED OFF_VALUE && (s64 (eb e) =? orig + 1)); [|discriminate].
+    + destruct (ev_is e DV_CASW MO_RELAXED OFF_VALUE && (s64 (eb e) =? orig + 1) &&
+                  (negb (eok e =? 1) || (s64 (ea e) =? orig))); [|discriminate].
       injection Hts as <-.
       destruct ((s64 (ea e) =? value s) && (negb (eok e =? 1) || (value s =? orig))) eqn:Cnd; [|discriminate].
       apply andb_true_iff in Cnd as [_ Cnd].
